@@ -2735,6 +2735,16 @@ fast_path_skip_routing:
 								   must,
 								   tuples->dscp);
 				publish_routing_meta(&udp_conn_state->meta, _m);
+			} else if (!udp_conn_state->meta.data.has_routing) {
+				/* Pin a plain direct decision too: otherwise every later
+				 * packet of this tracked flow is routed again and may switch
+				 * outbound mid-flow when rules or learned domains change.
+				 */
+				union routing_meta _m = build_routing_meta(outbound,
+								   mark,
+								   must,
+								   tuples->dscp);
+				publish_routing_meta(&udp_conn_state->meta, _m);
 			}
 		udp_conn_state->last_seen_ns = bpf_ktime_get_ns();
 	}
